@@ -110,6 +110,10 @@ def _quantity(v, qsys, dim, qform):
     raise ValueError(qform)
 
 
+def _us3(us):
+    return (us.space, us.time, us.quantity)
+
+
 def _add(a, b):
     return tuple(x + y for x, y in zip(a, b))
 
@@ -207,62 +211,100 @@ def _check_split(r, s_terms, p_terms, L, tag, out, with_constants):
             if fwd.label is not None or rev.label is not None:
                 out.append(("%s:split:%s:label" % (PID, tag), "labels of the parts: %r, %r (documented: None)"
                             % (fwd.label, rev.label)))
-            us = uq.sys_of(r.units_system)
-            if uq.sys_of(fwd.units_system) != us or uq.sys_of(rev.units_system) != us:
+            us = _us3(r.units_system)
+            if _us3(fwd.units_system) != us or _us3(rev.units_system) != us:
                 out.append(("%s:split:%s:units-system" % (PID, tag), "units systems of the parts differ from %s" % (us,)))
     except Exception as e:
         out.append(("%s:split:%s:unexpected-exception" % (PID, tag), "%s: %s" % (type(e).__name__, e)))
 
 
+_NOTES = {}      # per-process counters of cases the oracle declines to judge (merged by _work)
+_LO, _HI = F(10) ** -250, F(10) ** 250
+
+
+def _in_float_range(vf, vr):
+    """kf / kr mixes two unit systems when the operands are stored in different ones; with orders up to 8
+    (length exponents up to 21) and systems from fm to km the ratio, an operand converted to the other
+    system, or the conversion factor itself can leave the range of a double whichever system the result is
+    expressed in.  Such ratios are not claimed (they are counted).  Exact arithmetic."""
+    a, b = uq.sys_of(vf.units), uq.sys_of(vr.units)
+    if a == b:
+        return True
+    df, dr = uq.dim_of(vf.units), uq.dim_of(vr.units)
+    sf, sr = abs(uq.si_value(vf)), abs(uq.si_value(vr))
+    combos = [tuple((a, b)[(k >> i) & 1][i] for i in range(3)) for k in range(8)]
+    mags = []
+    for c in combos:
+        mags.append(sf / si.si_scale(c, df))
+        mags.append(sr / si.si_scale(c, dr))
+        mags.append((sf / sr) / si.si_scale(c, _sub(df, dr)))
+        for d in (df, dr, _sub(df, dr)):
+            mags.append(si.factor(a, c, d))
+            mags.append(si.factor(b, c, d))
+            mags.append(si.factor(c, a, d))
+            mags.append(si.factor(c, b, d))
+    return all(x == 0 or _LO <= x <= _HI for x in mags)
+
+
 def _check_K(r, n, m, tag, out):
     """K = kf / kr per environment (entry -> 'default' -> 0); None where kr is 0."""
-    try:
-        kd = _sub(R.k_dimension(n), R.k_dimension(m))
-        for how in ("equilibrium_constant", "K"):
+    kd = _sub(R.k_dimension(n), R.k_dimension(m))
+    kf, kr = r.kf, r.kr
+    if not isinstance(kf, dict) and not isinstance(kr, dict):
+        envs = [None]
+    else:
+        envs = []
+        for k in (kf, kr):
+            if isinstance(k, dict):
+                for e in k:
+                    if e not in envs:
+                        envs.append(e)
+        if "default" not in envs:
+            envs.append("default")
+    plan = []          # (env, kf there, kr there, exact K or None, judged?)
+    for e in envs:
+        vf, vr = _lookup(kf, e), _lookup(kr, e)
+        sf = uq.si_value(vf) if vf is not None else F(0)
+        sr = uq.si_value(vr) if vr is not None else F(0)
+        if sr == 0:
+            plan.append((e, vf, vr, None, True))
+        else:
+            plan.append((e, vf, vr, sf / sr, vf is None or _in_float_range(vf, vr)))
+    unjudged = sum(1 for x in plan if not x[4])
+    if unjudged:
+        _NOTES["K_outside_float_range_not_claimed"] = _NOTES.get("K_outside_float_range_not_claimed", 0) + unjudged
+    for how in ("equilibrium_constant", "K"):
+        try:
             K = r.equilibrium_constant() if how == "equilibrium_constant" else r.K
-            kf, kr = r.kf, r.kr
-            if not isinstance(kf, dict) and not isinstance(kr, dict):
-                envs = [None]
+        except Exception as e:
+            if not unjudged:      # otherwise: an overflow of an unclaimed entry took the whole result with it
+                out.append(("%s:%s:%s:unexpected-exception" % (PID, how, tag), "%s: %s" % (type(e).__name__, e)))
+            continue
+        if envs != [None] and not isinstance(K, dict):
+            out.append(("%s:%s:%s:not-a-dict" % (PID, how, tag), "per-environment constants but K is %r" % (K,)))
+            continue
+        for e, vf, vr, exact, judged in plan:
+            if not judged:
+                continue
+            if e is None:
+                got = K
+            elif e not in K:
+                out.append(("%s:%s:%s:missing-environment" % (PID, how, tag), "K has keys %s, no %r" % (sorted(K), e)))
+                continue
             else:
-                envs = []
-                for k in (kf, kr):
-                    if isinstance(k, dict):
-                        for e in k:
-                            if e not in envs:
-                                envs.append(e)
-                if "default" not in envs:
-                    envs.append("default")
-                if not isinstance(K, dict):
-                    out.append(("%s:%s:%s:not-a-dict" % (PID, how, tag),
-                                "per-environment constants but K is %r" % (K,)))
-                    return
-            for e in envs:
-                if e is None:
-                    got = K
-                else:
-                    if e not in K:
-                        out.append(("%s:%s:%s:missing-environment" % (PID, how, tag),
-                                    "K has keys %s, no %r" % (sorted(K), e)))
-                        continue
-                    got = K[e]
-                vf, vr = _lookup(kf, e), _lookup(kr, e)
-                sf = uq.si_value(vf) if vf is not None else F(0)
-                sr = uq.si_value(vr) if vr is not None else F(0)
-                if sr == 0:
-                    if got is not None:
-                        out.append(("%s:%s:%s:kr-zero-not-None" % (PID, how, tag),
-                                    "kr = 0 in environment %r but K = %r" % (e, got)))
-                    continue
-                if got is None:
-                    out.append(("%s:%s:%s:None-but-kr-nonzero" % (PID, how, tag),
-                                "K is None in environment %r, kf = %s, kr = %s" % (e, vf, vr)))
-                    continue
-                p = _const_problem(got, kd, sf / sr)
+                got = K[e]
+            if exact is None:
+                if got is not None:
+                    out.append(("%s:%s:%s:kr-zero-not-None" % (PID, how, tag),
+                                "kr = 0 in environment %r but K = %r" % (e, got)))
+            elif got is None:
+                out.append(("%s:%s:%s:None-but-kr-nonzero" % (PID, how, tag),
+                            "K is None in environment %r, kf = %s, kr = %s" % (e, vf, vr)))
+            else:
+                p = _const_problem(got, kd, exact)
                 if p:
                     out.append(("%s:%s:%s:value" % (PID, how, tag),
                                 "K in environment %r %s (kf = %s, kr = %s)" % (e, p, vf, vr)))
-    except Exception as e:
-        out.append(("%s:K:%s:unexpected-exception" % (PID, tag), "%s: %s" % (type(e).__name__, e)))
 
 
 # ---- the cases -------------------------------------------------------------------------------------
@@ -621,46 +663,75 @@ def _spaces(tier):
     thorough = tier == "thorough"
     sp = []
     styles = list(R.STYLES)
+    other = [x for x in styles if x != "single"]
     # -- equations
-    sp.append(Space("eq2: <=2 terms/side over {A,B,C} x coefficients {none,0,1,2,3,9}: all 343x343 equations x 3 spacing styles",
-                    "eq", [("left", S2), ("right", S2), ("style", styles)], build=_eq_build))
     if thorough:
+        sp.append(Space("eq2: <=2 terms/side over {A,B,C} x coefficients {none,0,1,2,3,9}: all 343x343 equations x 3 spacing styles",
+                        "eq", [("left", S2), ("right", S2), ("style", styles)], build=_eq_build))
         sp.append(Space("eq4: <=4 terms/side over {A,B} x {none,2}: all 341x341 equations x 3 spacing styles",
                         "eq", [("left", S4), ("right", S4), ("style", styles)], build=_eq_build))
+        sp.append(Space("equ: unusual labels %s: every side with <=2 terms x {none,2} (601) against every side with <=1 term (25), on either side, x 3 spacing styles"
+                        % ULABELS, "eq", [("side", SU2), ("probe", SU1), ("orient", [0, 1]), ("style", styles)],
+                        build=_eq_probe_build))
     else:
+        sp.append(Space("eq2/quick: <=2 terms/side over {A,B,C} x coefficients {none,0,1,2,3,9}: all 343x343 equations, single blanks",
+                        "eq", [("left", S2), ("right", S2), ("style", ["single"])], build=_eq_build))
+        sp.append(Space("eq2/quick: each of the 343 sides against 5 probe sides, on either side, extra and minimal spacing",
+                        "eq", [("side", S2), ("probe", PROBES), ("orient", [0, 1]), ("style", other)],
+                        build=_eq_probe_build))
         sp.append(Space("eq4/quick: <=3 terms/side over {A,B} x {none,2}: all 85x85 equations x 3 spacing styles",
                         "eq", [("left", S3), ("right", S3), ("style", styles)], build=_eq_build))
         sp.append(Space("eq4/quick: every side with <=4 terms over {A,B} x {none,2} (341) against 5 probe sides, on either side, x 3 spacing styles",
                         "eq", [("side", S4), ("probe", PROBES), ("orient", [0, 1]), ("style", styles)],
                         build=_eq_probe_build))
-    sp.append(Space("equ: unusual labels %s: every side with <=2 terms x {none,2} (601) against every side with <=1 term (25), on either side, x 3 spacing styles"
-                    % ULABELS, "eq", [("side", SU2), ("probe", SU1), ("orient", [0, 1]), ("style", styles)],
-                    build=_eq_probe_build))
+        sp.append(Space("equ/quick: unusual labels %s: all 25x25 equations with <=1 term/side x {none,2} x 3 spacing styles"
+                        % ULABELS, "eq", [("left", SU1), ("right", SU1), ("style", styles)], build=_eq_build))
+        sp.append(Space("equ/quick: every side with <=2 terms over the unusual labels x {none,2} (601) against 3 probe sides, on either side, x 3 spacing styles",
+                        "eq", [("side", SU2), ("probe", [[], [(None, "α")], [(2, "2B")]]), ("orient", [0, 1]), ("style", styles)],
+                        build=_eq_probe_build))
     # -- constants
-    sys_small = [si.DEFAULT] + list(si.MIXED)       # 8
-    sysk = SYS36 if thorough else sys_small
-    sp.append(Space("kbare: orders 0..8 x 0..8 x 3 side shapes x 36 unit systems x {UnitsSystem, dict} x 3 number pairs (incl. kr = 0, kf = 0)",
-                    "kbare", [("n", ORDERS), ("m", ORDERS), ("form", list(FORMS)), ("sys", SYS36),
-                              ("usform", ["UnitsSystem", "dict"]), ("nums", [(7, 0.375), (7, 0), (0, 0.375)])],
-                    build=lambda d: {"sub": "kbare", "n": d["n"], "m": d["m"], "form": d["form"], "sys": d["sys"],
-                                     "usform": d["usform"], "kf": d["nums"][0], "kr": d["nums"][1]}))
-    sp.append(Space("kexp: orders 0..8 x 0..8 x reaction system (36) x quantity system (%d) x {str, UnitValue}: right dimension accepted, value kept"
-                    % len(SYS36 if thorough else sys_small), "kexp",
-                    [("n", ORDERS), ("m", ORDERS), ("sys", SYS36), ("qsys", SYS36 if thorough else sys_small),
-                     ("qform", ["str", "UnitValue"])], const={"form": "two"}))
+    sys8 = [si.DEFAULT] + list(si.MIXED)       # 8
+    sys2 = [si.DEFAULT, si.MIXED[0]]
+    bare_variants = [("UnitsSystem", 7, 0.375), ("UnitsSystem", 7, 0), ("UnitsSystem", 0, 0.375), ("dict", 7, 0.375)]
+
+    def bare_build(d):
+        return {"sub": "kbare", "n": d["n"], "m": d["m"], "form": d["form"], "sys": d["sys"],
+                "usform": d["variant"][0], "kf": d["variant"][1], "kr": d["variant"][2]}
+    if thorough:
+        sp.append(Space("kbare: orders 0..8 x 0..8 x 3 side shapes x 36 unit systems x 4 variants ((7,.375),(7,0),(0,.375) with a UnitsSystem; (7,.375) with a units dict)",
+                        "kbare", [("n", ORDERS), ("m", ORDERS), ("form", list(FORMS)), ("sys", SYS36), ("variant", bare_variants)],
+                        build=bare_build))
+        sp.append(Space("kexp: orders 0..8 x 0..8 x reaction system (36) x quantity system (36) x {str, UnitValue}: right dimension accepted, value kept",
+                        "kexp", [("n", ORDERS), ("m", ORDERS), ("sys", SYS36), ("qsys", SYS36), ("qform", ["str", "UnitValue"])],
+                        const={"form": "two"}))
+    else:
+        sp.append(Space("kbare/quick: orders 0..8 x 0..8 x 3 side shapes x 8 unit systems x 4 variants ((7,.375),(7,0),(0,.375) with a UnitsSystem; (7,.375) with a units dict)",
+                        "kbare", [("n", ORDERS), ("m", ORDERS), ("form", list(FORMS)), ("sys", sys8), ("variant", bare_variants)],
+                        build=bare_build))
+        sp.append(Space("kbare/quick: orders 0..8 x 0..8 x shape 'two' x 36 unit systems x the same 4 variants",
+                        "kbare", [("n", ORDERS), ("m", ORDERS), ("form", ["two"]), ("sys", SYS36), ("variant", bare_variants)],
+                        build=bare_build))
+        sp.append(Space("kexp/quick: orders 0..8 x 0..8 x reaction system (8) x quantity system (8) x {str, UnitValue}: right dimension accepted, value kept",
+                        "kexp", [("n", ORDERS), ("m", ORDERS), ("sys", sys8), ("qsys", sys8), ("qform", ["str", "UnitValue"])],
+                        const={"form": "two"}))
+        sp.append(Space("kexp/quick: orders 0..8 x 0..8 x reaction system (36) x quantity system cm/ms/µmol x {str, UnitValue}",
+                        "kexp", [("n", ORDERS), ("m", ORDERS), ("sys", SYS36), ("qsys", [si.MIXED[3]]), ("qform", ["str", "UnitValue"])],
+                        const={"form": "two"}))
+    sysw = SYS36 if thorough else sys2
     sp.append(Space("kwrong: orders 0..8 x 0..8 x {kf,kr} x 26 wrong dimensions x {str, UnitValue} x {ctor, setter, set_k} x %d reaction systems: must raise"
-                    % len(sysk), "kwrong",
+                    % len(sysw), "kwrong",
                     [("n", ORDERS), ("m", ORDERS), ("which", ["kf", "kr"]), ("off", CUBE_OFF), ("qform", ["str", "UnitValue"]),
-                     ("site", ["ctor", "setter", "set_k"]), ("sys", sysk)],
+                     ("site", ["ctor", "setter", "set_k"]), ("sys", sysw)],
                     const={"form": "single", "qsys": si.MIXED[3]}))
-    sp.append(Space("kdict: orders 0..8 x 0..8 x 36 reaction systems x %d quantity systems x 4 dictionary variants (with/without 'default', scalar-dict mixes, kr = 0)"
-                    % len(sys_small), "kdict",
-                    [("n", ORDERS), ("m", ORDERS), ("sys", SYS36), ("qsys", sys_small), ("variant", [0, 1, 2, 3])],
+    sysd, qsysd = (SYS36, sys8) if thorough else (sys8, sys2)
+    sp.append(Space("kdict: orders 0..8 x 0..8 x %d reaction systems x %d quantity systems x 4 dictionary variants (with/without 'default', scalar-dict mixes, kr = 0)"
+                    % (len(sysd), len(qsysd)), "kdict",
+                    [("n", ORDERS), ("m", ORDERS), ("sys", sysd), ("qsys", qsysd), ("variant", [0, 1, 2, 3])],
                     const={"form": "repeat"}))
     sp.append(Space("kdictwrong: orders 0..8 x 0..8 x {kf,kr} x 3 entry positions x 26 wrong dimensions x {str, UnitValue} x %d systems: must raise"
-                    % len(sysk), "kdictwrong",
+                    % len(sysw), "kdictwrong",
                     [("n", ORDERS), ("m", ORDERS), ("which", ["kf", "kr"]), ("pos", [0, 1, 2]), ("off", CUBE_OFF),
-                     ("qform", ["str", "UnitValue"]), ("sys", sysk)],
+                     ("qform", ["str", "UnitValue"]), ("sys", sysw)],
                     const={"form": "two", "qsys": si.MIXED[5]}))
     # -- networks
     rspecs = [(eq, lab) for eq in NET_EQS for lab in NET_RLABELS]          # 18
@@ -726,6 +797,9 @@ def _work(job):
             acc.violation(key, what, case)
         if i == 0:
             acc.sample(case)
+    for k, v in _NOTES.items():
+        acc.count(k, v)
+    _NOTES.clear()
     acc.add(nontrivial=nt)
     return acc.pack()
 
